@@ -11,8 +11,8 @@
    before its deactivation or triggered before its evaluation; every rule's final degree/flag (`post`).
 
    General, First, Last, Threshold, Proportional: for every numeric reading `Num T` (R and binary64 alike,
-   NaN degrees included).  Highest, Lowest: for every reading that satisfies the order laws `PosOrder`
-   (proved for R; for binary64 the pop order is tied to the code by the correspondence).
+   NaN degrees included).  Highest, Lowest: for every reading that satisfies the order laws `PosOrder`,
+   which are proved for R and for binary64 (`NumF`, from the FloatAxioms specification of primitive floats).
    Only imports and final statements; all proofs live in Proofs/ActivationProofs.v. *)
 From Coq Require Import ZArith Bool List Reals Lra Sorting.Sorted Sorting.Permutation PrimFloat.
 From VF Require Import Num NumR NumF Core Activation Selection ActivationProofs.
@@ -67,6 +67,20 @@ Theorem C08_Lowest_selects_R : forall (n : Z) (b : list (crule R)),
   scalar_block b -> exists s', good_run (ALowest n) b s'.
 Proof. exact (Lowest_good NumR_PosOrder). Qed.
 Print Assumptions C08_Lowest_selects_R.
+
+Theorem C08_order_laws_F : forall sm tbl, PosOrder (NumF sm tbl).
+Proof. exact NumF_PosOrder. Qed.
+Print Assumptions C08_order_laws_F.
+
+Theorem C08_Highest_selects_F : forall sm tbl (n : Z) (b : list (crule float)),
+  @scalar_block float b -> exists s', @good_run float (NumF sm tbl) (AHighest n) b s'.
+Proof. exact (fun sm tbl => Highest_good (NumF_PosOrder sm tbl)). Qed.
+Print Assumptions C08_Highest_selects_F.
+
+Theorem C08_Lowest_selects_F : forall sm tbl (n : Z) (b : list (crule float)),
+  @scalar_block float b -> exists s', @good_run float (NumF sm tbl) (ALowest n) b s'.
+Proof. exact (fun sm tbl => Lowest_good (NumF_PosOrder sm tbl)). Qed.
+Print Assumptions C08_Lowest_selects_F.
 
 (* the statement in the form `trigger_calls (activate m b) = selection m b` *)
 Theorem C08_selects : forall (T : Type) (N : Num T) (m : activation T) (b : list (crule T)) (s' : cstate T),
